@@ -219,6 +219,23 @@ Theorem C07_decode_line_moves : forall ipos irem opos ocnt, 76 <= irem < BIG -> 
 Proof. exact decode_line_moves. Qed.
 Print Assumptions C07_decode_line_moves.
 
+(* the lower boundary of sc_io_nonuncompress: fewer than 5 bytes behind the 2-byte zlib header (|src| < 7) are refused with -1 before
+   sc_puff is called, for every content and destination; whenever sc_puff is called, the claimed length `src_size - 4` has not wrapped *)
+Theorem C07_nonuncompress_short_input : forall src dest_size dest_cap dest_nil,
+  len src < 7 -> nonuncompress src dest_size dest_cap dest_nil = Err (-1).
+Proof. exact nonuncompress_short_input. Qed.
+Print Assumptions C07_nonuncompress_short_input.
+
+Theorem C07_nonuncompress_sourcelen_no_wrap : forall src : list Z, 7 <= len src < BIG ->
+  let src_size := len src - 2 in
+  (src_size <? 5) = false /\ u64 (src_size - 4) = len src - 6 /\ 1 <= len src - 6 /\ len src - 6 + 4 = len (skipn 2 src).
+Proof. exact nonuncompress_sourcelen_no_wrap. Qed.
+Print Assumptions C07_nonuncompress_sourcelen_no_wrap.
+
+Example C07_nonuncompress_short_ex :
+  nonuncompress [120; 1; 187] 0 0 true = Err (-1) /\ nonuncompress [120; 1; 187; 190; 190; 190] 4096 4096 false = Err (-1).
+Proof. exact nonuncompress_short_ex. Qed.
+
 (* --- tie T1: the models compute what the slices generated from the CURRENT sc_puff.c, cdecode.c, sc_io.c compute ------------
    (Gen/PuffC07.v, Gen/DecodeC07.v, regenerated on every run by tools/c2g/groups_C07.py; proofs in C07/PuffGen.v, C07/DecodeGen.v).
    A loop of the model is tied by ONE unfolding = the generated step (test, body, increment); the memories the C code reads
